@@ -1032,16 +1032,12 @@ fn body_damage(case: &Case) -> RunOut {
             for _ in 0..(if thorough { 64 } else { 12 }) {
                 let mut d = data.clone();
                 let n = rng.range(1, 4) as usize;
-                let mut changed = false;
                 for _ in 0..n {
                     let pos = rng.below(body_len as u64) as usize;
-                    let nv = rng.below(256) as u8;
-                    if d[pos] != nv {
-                        d[pos] = nv;
-                        changed = true;
-                    }
+                    d[pos] = rng.below(256) as u8;
                 }
-                if changed {
+                // a later substitution may restore an earlier one: compare the result as a whole
+                if d != *data {
                     damages.push(("bytes".to_string(), d));
                 }
             }
